@@ -28,6 +28,7 @@ func nOr(es ...node) node         { return node{"or", seq(es)} }
 func nBreak(l string) node        { return node{"break", l} }
 func nContinue(l string) node     { return node{"continue", l} }
 func nAssert(e node) node         { return node{"assert", e} }
+func nEval(e node) node           { return node{"eval", e} }
 func nCall(f node, a ...node) node { return node{"call", f, seq(a)} }
 func nApp(f string, a ...node) node { return node{"call", nSym(f), seq(a)} }
 func nTrace(k int, a ...node) node {
@@ -279,6 +280,8 @@ func render(e node, l *layout) string {
 		return "(" + join(l, parts...) + ")"
 	case "assert":
 		return "(" + join(l, "assert", render(asNode(e[1]), l)) + ")"
+	case "eval":
+		return "(" + join(l, "eval", "(quote "+render(asNode(e[1]), nil)+")") + ")"
 	}
 	panic(fmt.Sprintf("render: unknown node %v", e[0]))
 }
